@@ -4,6 +4,7 @@ import RdpModel.Spec.Activation
 import RdpModel.Spec.Input
 import RdpModel.Spec.FastPath
 import Driver.C13
+import RdpModel.Wire.Tpkt
 namespace Rdp.Driver
 open Rdp Rdp.Global Rdp.Spec
 
@@ -64,6 +65,31 @@ def runOp (uid : Nat) (c : GClient) (op : String) : Option (GClient × String) :
     | .ok (.user, _) => pure (c, showStep "E" [] [])
     | .err _ => pure (c, showStep "E" [] [])
     | .panic _ => pure (c, showStep "P" [] [])
+  | 'W' :: rest =>
+    -- raw bytes on the stream, then k calls of `RdpClient::read` (tpkt/x224 deframing, mcs, global)
+    match (String.ofList rest).splitOn ":" with
+    | [k, hx] => do
+      let k ← k.toNat?
+      let b ← ofHex hx
+      let rec go : Nat → Transport → GClient → List Bytes → List BitmapEv → (GClient × String × List Bytes × List BitmapEv)
+        | 0, _, c, sent, evs => (c, "ok", sent, evs)
+        | n + 1, t, c, sent, evs =>
+          match X224.read t with
+          | .panic _ => (c, "P", sent, evs)
+          | .err _ => (c, "E", sent, evs)
+          | .ok (pl, t') =>
+            match Mcs.read uid 1003 pl with
+            | .ok (.global, pl') =>
+              let st := step c pl'
+              match st.res with
+              | .ok _ => go n t' st.client (sent ++ st.sent) (evs ++ st.events)
+              | .err _ => (st.client, "E", sent ++ st.sent, evs ++ st.events)
+              | .panic _ => (st.client, "P", sent ++ st.sent, evs ++ st.events)
+            | .panic _ => (c, "P", sent, evs)
+            | _ => (c, "E", sent, evs)
+      let (c', res, sent, evs) := go k ⟨b, []⟩ c [] []
+      pure (c', showStep res (framesOf uid sent) evs)
+    | _ => none
   | 'T' :: rest => do
     let e ← parseInEvent (String.ofList rest)
     match clientTryWrite c e with
@@ -114,6 +140,26 @@ def oracleSteps (uid : Nat) : RState → Nat → List String → List String →
   | s, sid, h :: hs, op :: ops, m :: ms, acc =>
     let sentOf := fun (x : String) => ((x.splitOn "[").getD 1 "").dropEnd 1 |>.toString
     if h = "X" then oracleSteps uid s sid hs ops ms ("E[][]" :: acc)
+    else if h = "WB" then
+      -- a raw stream of complete fast-path frames: inside the window every rectangle of every
+      -- frame the reference deframer and decoder find is delivered, in order
+      if s = .active then
+        let raw := match (op.drop 1).toString.splitOn ":" with | [_, hx] => ofHex hx | _ => none
+        let rec frames (fuel : Nat) (d : Bytes) (acc : List Spec.FastPath.Rect) : Option (List Spec.FastPath.Rect) :=
+          match fuel with
+          | 0 => none
+          | fuel + 1 =>
+            if d.isEmpty then some acc else
+            match Spec.deframe d with
+            | some (.fastShort _ p, rest) => (Spec.FastPath.decodePdu (p.length + 1) p).bind fun rs => frames fuel rest (acc ++ rs)
+            | some (.fastLong _ p, rest) => (Spec.FastPath.decodePdu (p.length + 1) p).bind fun rs => frames fuel rest (acc ++ rs)
+            | _ => none
+        match raw.bind (fun d => frames (d.length + 1) d []) with
+        | some rects =>
+          let evs := rects.map fun r => showEv ⟨r.left, r.top, r.right, r.bottom, r.width, r.height, r.bpp, r.flags % 2 = 1, r.data⟩
+          oracleSteps uid s sid hs ops ms (("ok[][" ++ "|".intercalate evs ++ "]") :: acc)
+        | none => oracleSteps uid s sid hs ops ms ("*[][*]" :: acc)
+      else oracleSteps uid s sid hs ops ms ("*[][]" :: acc)
     else if h = "FP" then
       -- a fast-path PDU with any mixture of updates: inside the window the callbacks must be
       -- exactly the rectangles the reference decoder finds, in wire order
